@@ -153,8 +153,8 @@ type c11Flush struct {
 	Tombs  bool    `json:"tombs"`
 	Limits []int   `json:"limits"`
 	// observations, one per limit
-	Errs  []bool   `json:"errs"`  // flush returned an error
-	Fine  []string `json:"fine"`  // "" or what is wrong with the table when flush reported success
+	Errs  []bool   `json:"errs"` // flush returned an error
+	Fine  []string `json:"fine"` // "" or what is wrong with the table when flush reported success
 	Fatal string   `json:"fatal,omitempty"`
 }
 
